@@ -151,7 +151,11 @@ func coseMutations() []coseMut {
 		caddCrit(b, cTstr(otk(c)))
 	})
 	add("pairing:swapped-time-header", func(b *coseBuild, c *coseCtx) {
-		v := *cgetP(b, tk(c))
+		p := cgetP(b, tk(c))
+		if p == nil {
+			return
+		}
+		v := *p
 		cdropP(b, tk(c))
 		csetP(b, otk(c), v)
 	})
@@ -246,7 +250,15 @@ func coseMutations() []coseMut {
 	add("alg:tstr", func(b *coseBuild, c *coseCtx) { csetP(b, int64(1), cTstr("ES256")) })
 	for _, a := range []int64{-7, -35, -36, -37, -38, -39, -8, -257, 5, 0} {
 		a := a
-		add(fmt.Sprintf("alg:declared%d", a), func(b *coseBuild, c *coseCtx) { csetP(b, int64(1), cInt(a)) })
+		add(fmt.Sprintf("alg:declared%d", a), func(b *coseBuild, c *coseCtx) {
+			csetP(b, int64(1), cInt(a))
+			// a genuinely valid signature for the declared algorithm wherever the key type admits one
+			for n, id := range coseAlgID {
+				if id == a {
+					b.SignAs = n
+				}
+			}
+		})
 	}
 	add("cty:uint", func(b *coseBuild, c *coseCtx) { csetP(b, int64(3), cUint(50)) })
 	add("cty:empty", func(b *coseBuild, c *coseCtx) { csetP(b, int64(3), cTstr("")) })
@@ -534,4 +546,32 @@ func genCoseRead(r *Runner, prop string) {
 		jobs = append(jobs, coseJob{label: "random-set", keyID: key, n: 1 + rng.Intn(3), scheme: schemes[rng.Intn(2)], muts: ms, ext: rng.Intn(4), expiry: rng.Intn(2) == 0})
 	}
 	runJobs(len(jobs), func(i int) { runCoseJob(r, jobs[i], i) })
+}
+
+// C02: the complete matrix (leaf key kind) x (declared algorithm) x both formats
+func genC02(r *Runner) {
+	keys := []string{"rsa1024-0", "rsa2048-0", "rsa3072-0", "rsa4096-0", "ec224-0", "ec256-0", "ec384-0", "ec521-0", "ed-0"}
+	var jj []jwsJob
+	var cj []coseJob
+	jm := jwsMutations()
+	cm := coseMutations()
+	for _, k := range keys {
+		for _, scheme := range []string{"notary.x509", "notary.x509.signingAuthority"} {
+			jj = append(jj, jwsJob{label: "matrix:natural", keyID: k, n: 2, scheme: scheme})
+			cj = append(cj, coseJob{label: "matrix:natural", keyID: k, n: 2, scheme: scheme})
+		}
+		for _, m := range jm {
+			if strings.HasPrefix(m.name, "alg:") || m.name == "drop:alg" || m.name == "null:alg" || m.name == "number:alg" || m.name == "object:alg" || strings.HasPrefix(m.name, "dup-other:alg") || strings.HasPrefix(m.name, "ext:fold-twin:A") {
+				jj = append(jj, jwsJob{label: "matrix:" + m.name, keyID: k, n: 2, scheme: "notary.x509", muts: []jwsMut{m}})
+			}
+		}
+		for _, m := range cm {
+			if strings.HasPrefix(m.name, "alg:") || m.name == "drop:alg" || m.name == "null:alg" || m.name == "bstr:alg" || m.name == "tstr:alg" || m.name == "unsigned:alg" || m.name == "ext:dup-alg" {
+				cj = append(cj, coseJob{label: "matrix:" + m.name, keyID: k, n: 2, scheme: "notary.x509", muts: []coseMut{m}})
+			}
+		}
+	}
+	runJobs(len(jj), func(i int) { runJwsJob(r, jj[i], i) })
+	runJobs(len(cj), func(i int) { runCoseJob(r, cj[i], i) })
+	r.sum.Exhaustive = true
 }
